@@ -136,3 +136,20 @@ Proof.
     polq_w_rPts, polq_w_qPts, polq_w_phi, polq_w_pol, polq_w_tol.
   split; [reflexivity|]. split; [reflexivity|]. exact polq_impl_never_terminates.
 Qed.
+
+(* ------------------------------------------------------------------------------------------ *)
+(** * the executed [sptrunc] is floor on non-negative numbers (AdvQc.advq_trunc_ok), hence the
+      range of the modulo holds unconditionally at the executed instance *)
+From PGV Require Import SplineTheory AdvCommon AdvQc.
+Theorem polq_trunc_ok : sp_trunc_ok Qc spq_ops.
+Proof. exact (proj1 advq_trunc_ok). Qed.
+Theorem polq_mod_range (x m : Qc) : (Q2Qc 0 < m)%Qc ->
+  exists y, polq_mod x m = SpOk y /\ (Q2Qc 0 <= y)%Qc /\ (y < m)%Qc.
+Proof.
+  intros Hm.
+  assert (Hm' : sp_lt spq_ops (sp0 spq_ops) m).
+  { split; [apply spq_le_iff, Qclt_le_weak, Hm|]. intros E. rewrite <- E in Hm. exact (Qclt_not_eq _ _ Hm eq_refl). }
+  destruct (pol_mod_range_thm Qc spq_ops spq_laws x m polq_trunc_ok Hm') as [y [H1 [H2 [H3 H4]]]].
+  exists y. split; [exact H1|]. split; [apply spq_le_iff, H2|].
+  apply spq_le_iff in H3. destruct (Qcle_lt_or_eq _ _ H3) as [Hlt|He]; [exact Hlt|contradiction].
+Qed.
